@@ -4,6 +4,7 @@ package mktor
 
 import (
 	"bytes"
+	"crypto/sha1"
 	"fmt"
 	"strings"
 
@@ -41,8 +42,32 @@ func Bytes(s Spec) ([]byte, []byte) {
 		}
 	}
 	var hashes strings.Builder
-	for _, h := range content.PieceHashes(s.Seed, total, s.PieceLen) {
-		hashes.Write(h)
+	hasPad := false
+	for _, f := range s.Files {
+		hasPad = hasPad || f.Pad
+	}
+	if !hasPad {
+		for _, h := range content.PieceHashes(s.Seed, total, s.PieceLen) {
+			hashes.Write(h)
+		}
+	} else {
+		// padding files hold zeros
+		buf := make([]byte, total)
+		var off int64
+		for _, f := range s.Files {
+			if !f.Pad {
+				content.Fill(s.Seed, off, buf[off:off+f.Length])
+			}
+			off += f.Length
+		}
+		for o := int64(0); o < total; o += s.PieceLen {
+			e := o + s.PieceLen
+			if e > total {
+				e = total
+			}
+			h := sha1.Sum(buf[o:e])
+			hashes.Write(h[:])
+		}
 	}
 	var info strings.Builder
 	info.WriteString("d")
